@@ -1273,6 +1273,16 @@ namespace bloch::runtime {
         });
     }
 
+    Value RuntimeEvaluator::withDeclaredClass(Value v, const RuntimeTypeInfo& declared) const {
+        // Object values carry the class they are statically known as (used for overload
+        // resolution and as the starting point of method lookup). A value stored into a
+        // declared variable, parameter, field or return slot takes that declaration's type.
+        if (v.type == Value::Type::Object && declared.kind == Value::Type::Object &&
+            !declared.className.empty() && findClass(declared.className))
+            v.className = declared.className;
+        return v;
+    }
+
     void RuntimeEvaluator::rethrowPendingDestructorError() {
         if (!m_pendingDestructorError)
             return;
@@ -1509,7 +1519,7 @@ namespace bloch::runtime {
                 thisVal.className = cls->name;
                 m_env.back()["this"] = {thisVal, false, true};
                 Value init = eval(field.initializer);
-                slot = init;
+                slot = withDeclaredClass(init, field.type);
                 endScope();
                 m_currentClassCtx = prevClass;
                 m_inStaticContext = prevStatic;
@@ -1547,7 +1557,12 @@ namespace bloch::runtime {
         thisVal.className = cls->name;
         m_env.back()["this"] = {thisVal, false, true};
         for (size_t i = 0; ctor && i < ctor->params.size() && i < args.size(); ++i) {
-            m_env.back()[ctor->params[i]->name] = {args[i], false, true};
+            std::unordered_map<std::string, RuntimeTypeInfo> subst;
+            for (size_t t = 0; t < cls->typeParamNames.size() && t < cls->typeArgs.size(); ++t)
+                subst[cls->typeParamNames[t]] = cls->typeArgs[t];
+            m_env.back()[ctor->params[i]->name] = {
+                withDeclaredClass(args[i], typeInfoFromAst(ctor->params[i]->type.get(), subst)),
+                false, true};
         }
 
         // Detect an explicit super(...) call as the first statement.
@@ -1634,7 +1649,7 @@ namespace bloch::runtime {
                 const auto& param = ctor->params[i];
                 auto fieldMeta = findInstanceField(cls, param->name);
                 if (fieldMeta && fieldMeta->offset < obj->fields.size()) {
-                    obj->fields[fieldMeta->offset] = args[i];
+                    obj->fields[fieldMeta->offset] = withDeclaredClass(args[i], fieldMeta->type);
                 }
             }
         }
@@ -1689,7 +1704,9 @@ namespace bloch::runtime {
         }
         m_returnValue = {};
         for (size_t i = 0; i < method->decl->params.size() && i < args.size(); ++i) {
-            m_env.back()[method->decl->params[i]->name] = {args[i], false, true};
+            Value arg = i < method->params.size() ? withDeclaredClass(args[i], method->params[i])
+                                                  : args[i];
+            m_env.back()[method->decl->params[i]->name] = {arg, false, true};
         }
         bool prevReturn = m_hasReturn;
         m_hasReturn = false;
@@ -1701,6 +1718,16 @@ namespace bloch::runtime {
             }
         }
         Value ret = m_returnValue;
+        if (method->decl->returnType && ret.type == Value::Type::Object) {
+            std::unordered_map<std::string, RuntimeTypeInfo> subst;
+            if (method->owner) {
+                for (size_t t = 0; t < method->owner->typeParamNames.size() &&
+                                   t < method->owner->typeArgs.size();
+                     ++t)
+                    subst[method->owner->typeParamNames[t]] = method->owner->typeArgs[t];
+            }
+            ret = withDeclaredClass(ret, typeInfoFromAst(method->decl->returnType.get(), subst));
+        }
         m_returnValue = {};  // consumed: do not keep the returned object alive
         endScope();
         m_hasReturn = prevReturn;
@@ -1715,7 +1742,9 @@ namespace bloch::runtime {
         // Bind parameters, run the body until a return is hit, then unwind.
         beginScope();
         for (size_t i = 0; i < fn->params.size() && i < args.size(); ++i) {
-            m_env.back()[fn->params[i]->name] = {args[i], false, true};
+            m_env.back()[fn->params[i]->name] = {
+                withDeclaredClass(args[i], typeInfoFromAst(fn->params[i]->type.get())), false,
+                true};
         }
         bool prevReturn = m_hasReturn;
         m_returnValue = {};
@@ -1727,7 +1756,7 @@ namespace bloch::runtime {
                     break;
             }
         }
-        Value ret = m_returnValue;
+        Value ret = withDeclaredClass(m_returnValue, typeInfoFromAst(fn->returnType.get()));
         m_returnValue = {};  // consumed: do not keep the returned object alive
         endScope();
         m_hasReturn = prevReturn;
@@ -1994,6 +2023,16 @@ namespace bloch::runtime {
                     v = eval(var->initializer.get());
                     initialized = true;
                 }
+            }
+            if (dynamic_cast<NamedType*>(var->varType.get())) {
+                std::unordered_map<std::string, RuntimeTypeInfo> subst;
+                if (m_currentClassCtx) {
+                    for (size_t i = 0; i < m_currentClassCtx->typeParamNames.size() &&
+                                       i < m_currentClassCtx->typeArgs.size();
+                         ++i)
+                        subst[m_currentClassCtx->typeParamNames[i]] = m_currentClassCtx->typeArgs[i];
+                }
+                v = withDeclaredClass(v, typeInfoFromAst(var->varType.get(), subst));
             }
             m_env.back()[var->name] = {v, var->isTracked, initialized};
         } else if (auto block = dynamic_cast<BlockStatement*>(s)) {
@@ -3147,7 +3186,8 @@ namespace bloch::runtime {
                         : nullptr;
                 if (instField) {
                     if (instField->offset < obj.objectValue->fields.size())
-                        obj.objectValue->fields[instField->offset] = rhs;
+                        obj.objectValue->fields[instField->offset] =
+                            withDeclaredClass(rhs, instField->type);
                 } else {
                     auto [staticField, owner] =
                         obj.objectValue->cls
